@@ -53,6 +53,16 @@ type Hooks struct {
 	// UserValueLeaves (with UserLeaves): the user's node is a VALUE type that cannot be compared with == (it carries a
 	// slice) and whose end cannot be moved (no SetReaderPos): only for grammars without RightTrim
 	UserValueLeaves bool
+	// UserAnyTop: the body of a memoized nonterminal, when it is an Any, is run by a HAND-WRITTEN alternative combinator
+	// that collects the results in an ast.NodeList of its own, grown with plain append (so it usually has spare
+	// capacity) - the list Memoize then caches and hands to several consumers
+	UserAnyTop bool
+	// UserAnyOnly restricts UserAnyTop to these nonterminals (nil: all)
+	UserAnyOnly map[int]bool
+	// KeywordLeaves: every rune terminal is wrapped in a hand-written parser that uses the context's keyword registry
+	// the lazy way - the first time it runs on a context it registers a keyword of its own (ctx.IsKeyword /
+	// ctx.RegisterKeywords, the API the library offers to user-written identifier parsers) - and then delegates
+	KeywordLeaves bool
 }
 
 type Built struct {
@@ -62,6 +72,8 @@ type Built struct {
 	shared map[string]parsley.Parser
 	// SharedUses counts the occurrences that were served by a parser value built for an earlier occurrence
 	SharedUses int
+	// UserAnys counts the nonterminal bodies run by the hand-written alternative combinator
+	UserAnys int
 }
 
 func (b *Built) build(e *Expr, h *Hooks) parsley.Parser {
@@ -88,11 +100,22 @@ func (b *Built) build(e *Expr, h *Hooks) parsley.Parser {
 			}
 			p = b.leaves[1000+int(e.C)]
 		}
+		if h.KeywordLeaves {
+			inner, kw := p, "kw-"+string(rune(e.C))
+			p = parser.Func(func(ctx *parsley.Context, lrc data.IntMap, pos parsley.Pos) (parsley.Node, data.IntSet, parsley.Error) {
+				if !ctx.IsKeyword(kw) {
+					ctx.RegisterKeywords(kw)
+				}
+				return inner.Parse(ctx, lrc, pos)
+			})
+		}
 		if h.Leaf != nil {
 			p = h.Leaf(e, p)
 		}
 	case OpKw:
 		p = terminal.Op(e.S)
+	case OpMark:
+		p = UserMark()
 	case OpEmpty:
 		p = parser.Empty()
 	case OpEnd:
@@ -146,6 +169,13 @@ func (b *Built) build(e *Expr, h *Hooks) parsley.Parser {
 			p = text.LeftTrim(ks[0], text.WsMode(e.C))
 		case OpSeqRetSingle:
 			p = combinator.SeqOf(ks...).HandleResult(combinator.ReturnSingle())
+		case OpSeqPickFirst:
+			p = combinator.SeqOf(ks...).HandleResult(combinator.SeqResultHandlerFunc(func(pos parsley.Pos, token string, nodes []parsley.Node, ip parsley.Interpreter) parsley.Node {
+				if len(nodes) == 0 {
+					return ast.EmptyNode(pos)
+				}
+				return nodes[0] // the node itself, as its parser returned it
+			}))
 		case OpSingle:
 			p = combinator.Single(ks[0])
 		case OpSuppress:
@@ -173,7 +203,7 @@ func (b *Built) build(e *Expr, h *Hooks) parsley.Parser {
 	if h.Around != nil {
 		p = h.Around(e, p)
 	}
-	if h.ShareExprs && h.NameOf == nil && e.Op != OpRune && e.Op != OpKw && e.Op != OpEmpty && e.Op != OpEnd && e.Op != OpNT {
+	if h.ShareExprs && h.NameOf == nil && e.Op != OpRune && e.Op != OpKw && e.Op != OpMark && e.Op != OpEmpty && e.Op != OpEnd && e.Op != OpNT {
 		if b.shared == nil {
 			b.shared = map[string]parsley.Parser{}
 		}
@@ -189,7 +219,17 @@ func Build(g *Grammar, h *Hooks) *Built {
 	}
 	b := &Built{G: g, NTs: make([]parser.Func, len(g.NTs))}
 	for i, body := range g.NTs {
-		var p parsley.Parser = b.build(body, h)
+		var p parsley.Parser
+		if h.UserAnyTop && (h.UserAnyOnly == nil || h.UserAnyOnly[i]) && body.Op == OpAny && g.Memo[i] && !h.NoMemo && h.NameOf == nil {
+			var ks []parsley.Parser
+			for _, k := range body.Kids {
+				ks = append(ks, b.build(k, h))
+			}
+			p = UserAny(ks...)
+			b.UserAnys++
+		} else {
+			p = b.build(body, h)
+		}
 		if h.Inside != nil {
 			p = h.Inside(i, p)
 		}
@@ -277,6 +317,59 @@ func (u *UserLeaf) SetReaderPos(f func(parsley.Pos) parsley.Pos) {
 	u.RP = f(u.RP)
 }
 func (u *UserLeaf) String() string { return fmt.Sprintf("%s{%d..%d}", u.Tok, u.P, u.RP) }
+
+// UserAny is a hand-written alternative combinator with the meaning of combinator.Any: every alternative is tried,
+// all results are returned. It keeps them in a list of its own, grown with append.
+func UserAny(ps ...parsley.Parser) parser.Func {
+	return parser.Func(func(ctx *parsley.Context, lrc data.IntMap, pos parsley.Pos) (parsley.Node, data.IntSet, parsley.Error) {
+		var out ast.NodeList
+		cp := data.EmptyIntSet
+		var err parsley.Error
+		for _, p := range ps {
+			ctx.RegisterCall()
+			n, cp2, e := p.Parse(ctx, lrc, pos)
+			cp = cp.Union(cp2)
+			if e != nil && (err == nil || e.Pos() >= err.Pos()) {
+				err = e
+			}
+			switch v := n.(type) {
+			case nil:
+			case ast.NodeList:
+				out = append(out, v...)
+			default:
+				out = append(out, n)
+			}
+		}
+		if err != nil {
+			ctx.SetError(err)
+		}
+		switch len(out) {
+		case 0:
+			return nil, cp, err
+		case 1:
+			return out[0], cp, nil
+		}
+		return out, cp, nil
+	})
+}
+
+// MarkNode is a zero-width marker node of the user's own: it has no position of its own (Pos() is NilPos), its
+// reader position is where the parser was called
+type MarkNode struct{ RP parsley.Pos }
+
+func (m *MarkNode) Token() string                                          { return "MARK" }
+func (m *MarkNode) Schema() interface{}                                    { return nil }
+func (m *MarkNode) Pos() parsley.Pos                                       { return parsley.NilPos }
+func (m *MarkNode) ReaderPos() parsley.Pos                                 { return m.RP }
+func (m *MarkNode) SetReaderPos(f func(parsley.Pos) parsley.Pos)           { m.RP = f(m.RP) }
+func (m *MarkNode) Value(userCtx interface{}) (interface{}, parsley.Error) { return nil, nil }
+
+// UserMark is a hand-written parser that always succeeds without consuming input
+func UserMark() parser.Func {
+	return parser.Func(func(ctx *parsley.Context, lrc data.IntMap, pos parsley.Pos) (parsley.Node, data.IntSet, parsley.Error) {
+		return &MarkNode{RP: pos}, data.EmptyIntSet, nil
+	})
+}
 
 // UserValueLeaf is a terminal node of the user's own that is a value type and not comparable
 type UserValueLeaf struct {
